@@ -51,7 +51,7 @@ Definition showY (Y : list (core Qc)) := map showG Y.
 Definition tagQ (a b : Z) : list (list (list (list (Z * Z)))) := [[[[(a, b)]]]].
 Definition noacc (t : nat) (Y Yold : list (core Qc)) : Qc := qz (-1).
 Definition noaccv (t : nat) (Y : list (core Qc)) : Qc := qz (-1).
-Definition showR (r : result (list (core Qc) * info)) :=
+Definition showR (r : result (list (core Qc) * @info Qc)) :=
   match r with
   | Ok (Y, inf) => tagQ 0 0 ++ tagQ (Z.of_nat (i_nswp inf)) (Z.of_nat (stop_code (i_stop inf))) ++ showY Y
   | Err e => tagQ 1 (err_code e)
@@ -71,7 +71,7 @@ Import ListNotations.
 Definition showG (G : core float) := map (map (map F_show)) (dat G).
 Definition showY (Y : list (core float)) := map showG Y.
 Definition tagF (a b : Z) : list (list (list (list (Z * Z)))) := [[[[(a, b)]]]].
-Definition showR (r : result (list (core float) * info)) :=
+Definition showR (r : result (list (core float) * @info float)) :=
   match r with
   | Ok (Y, inf) => tagF 0 0 ++ tagF (Z.of_nat (i_nswp inf)) (Z.of_nat (stop_code (i_stop inf))) ++ showY Y
   | Err e => tagF 1 (err_code e)
